@@ -1,7 +1,7 @@
 (* C18 Log window and live subscription: right window, no gap, no duplicate.
    This file contains only the property statements; every proof is `exact <lemma>`. *)
 From Coq Require Import List ZArith NArith Bool.
-From PC.LogBuf Require Import Model Proofs.
+From PC.LogBuf Require Import Model Proofs Check MonLink.
 Import ListNotations.
 
 (* "The in-memory log always holds its most recent lines in order - at least the configured length
@@ -83,6 +83,21 @@ Theorem C18_nonblocking_refuted :
   exists fs : list follower, write_enabled fs = true /\ write_enabled (Nat.iter 256 deliver fs) = false.
 Proof. exact bounded_follower_blocks. Qed.
 Print Assumptions C18_nonblocking_refuted.
+
+(* model => monitor: the check's property monitor (holds_C18, written from the property text: declarative
+   window over the history of written lines, length discipline, expected follower streams) and its
+   correspondence predicate accept what the model produces, for EVERY size, operation sequence and set of
+   observer ids; and the monitor's declarative window IS the model's GetLogRange on all of Z x Z.  A history
+   the monitor rejects is therefore one on which the implementation left the model. *)
+Theorem C18_monitor_accepts_model : forall (size : nat) (ops : list (op N)) (ids : list N),
+  holds_C18 (observe size ops ids) = true /\ model_ok (observe size ops ids) = true.
+Proof. exact (fun size ops ids => conj (monitor_accepts_model size ops ids) (model_accepts_model size ops ids)). Qed.
+Print Assumptions C18_monitor_accepts_model.
+
+Theorem C18_monitor_window_is_range : forall (b : list N) (off lim : Z),
+  window_spec b off lim = get_range b off lim.
+Proof. exact window_spec_get_range. Qed.
+Print Assumptions C18_monitor_window_is_range.
 
 (* non-vacuity: a concrete run that meets the hypotheses of the follower theorems *)
 Example C18_example :
